@@ -150,7 +150,7 @@ fn go(log: &mut Log, mut v: TensorView<i32>, ops: &[Op], rng: &mut Rng) {
                 }
                 Err(_) => log.fail(op, "panic"),
             },
-            "map" => match guarded(|| v.map(|x| 2 * *x + 1)) {
+            "map" => match guarded(|| v.map(|x| *x ^ 1)) {
                 Ok(t) => {
                     log.view(op, &t.view());
                     return go(log, t.view(), rest, rng);
